@@ -331,6 +331,8 @@ def _replay_alloc(args: dict) -> str | None:
     Only pre-states whose count is below the live limit are replayable (the patched limit is not).
     """
     n, total = args["n"], args["total"]
+    if n >= _CAP and "size" in args:
+        return _replay_at_live_limit(args["size"])
     ents = [(args["o%d" % i], args["l%d" % i]) for i in range(n)]
     buf = bytearray(_HS)
     shm.ShmAllocator.initialize(memoryview(buf), total)
@@ -414,6 +416,29 @@ class _Off:
 
     def __getattr__(self, name: str) -> object:
         raise HarnessModelError(f"offset used through {name}: comparison not forwarded by the wrapper")
+
+
+def _replay_at_live_limit(size: int) -> str | None:
+    """The patched limit (4) is not the live one: replay the 'table full' case scaled to the live MAX_ALLOCS."""
+    size = max(1, min(int(size), 1 << 16))
+    cap = shm.MAX_ALLOCS
+    total = _HS + cap + size + 16
+    buf = bytearray(total)
+    shm.ShmAllocator.initialize(memoryview(buf), total)
+    a = shm.ShmAllocator(memoryview(buf), total)
+    ents = [(_HS + i, 1) for i in range(cap)]
+    a._write_allocs(list(ents))
+    data_before = bytes(buf[_HS:])
+    try:
+        r = a.allocate(size)
+    except Exception as e:  # noqa: BLE001
+        return f"allocate({size}) on a full table ({cap} entries) raised {type(e).__name__}: {e}"
+    if r is not None or a.num_allocs != cap or bytes(buf[_HS:]) != data_before:
+        return (
+            f"allocate({size}) on a full table ({cap} entries) returned {r}; count is now {a.num_allocs}; "
+            f"data region {'was overwritten by the table' if bytes(buf[_HS:]) != data_before else 'untouched'}"
+        )
+    return None
 
 
 def _fits(ents: list[tuple[int, int]], total: int, size: int) -> bool:
@@ -753,6 +778,13 @@ def _replay_write(args: dict) -> str | None:
         table = seg.allocator._read_allocs()
         alloc_len = dict(table)[o3]
         after = bytes(seg.buf[o2 : o2 + n2])
+        if n3 <= alloc_len and after == before:
+            # stayed inside: the reported (offset, length) must cover the stream that was written
+            try:
+                ok = shm._deserialize_from_shm(seg.read_buffer(o3, n3), heavy).equals(b_heavy)
+            except Exception:  # noqa: BLE001
+                ok = False
+            return None if ok else f"allocate_and_write reported ({o3}, {n3}) but that range does not hold the written stream"
         if n3 > alloc_len or after != before:
             state = "unreadable"
             try:
